@@ -17,7 +17,7 @@ pub mod iter;
 pub mod sim;
 
 pub mod prelude {
-    pub use crate::iter::{FromParallelIterator, IntoParallelIterator, IntoParallelRefIterator, ParallelIterator};
+    pub use crate::iter::{FromParallelIterator, IntoParallelIterator, IntoParallelRefIterator, ParallelIterator, ParallelSlice};
 }
 
 pub use iter::*;
@@ -25,4 +25,85 @@ pub use iter::*;
 /// rayon::current_num_threads()
 pub fn current_num_threads() -> usize {
     sim::with(|s| if s.in_simulation { s.cfg.workers.max(1) } else { 1 })
+}
+
+/// rayon::join: both closures are run, the second as a simulated task when a simulation is active
+pub fn join<A, B, RA, RB>(oper_a: A, oper_b: B) -> (RA, RB)
+where
+    A: FnOnce() -> RA + Send,
+    B: FnOnce() -> RB + Send,
+    RA: Send,
+    RB: Send,
+{
+    if !sim::in_simulation() {
+        let a = oper_a();
+        let b = oper_b();
+        return (a, b);
+    }
+    shuttle::thread::scope(|s| {
+        let hb = s.spawn(oper_b);
+        let a = oper_a();
+        let b = hb.join().expect("joined task panicked");
+        (a, b)
+    })
+}
+
+/// rayon::ThreadPoolBuilder / ThreadPool: the number of workers of a simulated execution is the
+/// simulator's decision (F-workers); building a pool always succeeds and `install` runs the
+/// closure in place
+#[derive(Debug, Default)]
+pub struct ThreadPoolBuilder {
+    num_threads: usize,
+}
+#[derive(Debug)]
+pub struct ThreadPoolBuildError;
+impl std::fmt::Display for ThreadPoolBuildError {
+    fn fmt(&self, f: &mut std::fmt::Formatter) -> std::fmt::Result {
+        write!(f, "the global thread pool has already been initialized")
+    }
+}
+impl std::error::Error for ThreadPoolBuildError {}
+#[derive(Debug)]
+pub struct ThreadPool {
+    num_threads: usize,
+}
+impl ThreadPoolBuilder {
+    pub fn new() -> Self {
+        ThreadPoolBuilder { num_threads: 0 }
+    }
+    pub fn num_threads(mut self, n: usize) -> Self {
+        self.num_threads = n;
+        self
+    }
+    pub fn thread_name<F>(self, _f: F) -> Self
+    where
+        F: FnMut(usize) -> String + 'static,
+    {
+        self
+    }
+    pub fn stack_size(self, _s: usize) -> Self {
+        self
+    }
+    pub fn build(self) -> Result<ThreadPool, ThreadPoolBuildError> {
+        Ok(ThreadPool { num_threads: self.num_threads })
+    }
+    pub fn build_global(self) -> Result<(), ThreadPoolBuildError> {
+        Ok(())
+    }
+}
+impl ThreadPool {
+    pub fn install<OP, R>(&self, op: OP) -> R
+    where
+        OP: FnOnce() -> R + Send,
+        R: Send,
+    {
+        op()
+    }
+    pub fn current_num_threads(&self) -> usize {
+        if self.num_threads > 0 && !sim::in_simulation() {
+            self.num_threads
+        } else {
+            current_num_threads()
+        }
+    }
 }
